@@ -140,9 +140,19 @@ def buffered_reader(ctx, R, roles, T, rule="BUF"):
                 R.fail(rule, q + "|size-written", "`size` is modified", f.loc(n.ast))
     # result = buf[:size]; buf = buf[size:]; return result
     rets = [n for n in g.live_nodes() if n.kind == "stmt" and isinstance(n.ast, ast.Return)]
-    bufroot, bufattr = buf.rsplit(".", 1) if "." in buf else (None, buf)
+    store_key = buf
+    if "." not in buf and buf not in f.params:
+        # a working copy: `b = info.recv_buffer` before the loop, everything done on `b`, `info.recv_buffer = b[size:]` at the end - the same
+        # bytes end up in the attribute (nothing else reads or writes the attribute in between)
+        outer = [d for d in df.reaching(head, buf) if d.node not in inside]
+        if len(outer) == 1 and outer[0].kind == "assign" and not outer[0].path and outer[0].value is not None and varkey(unawait(outer[0].value)) and "." in varkey(unawait(outer[0].value)):
+            attr_key = varkey(unawait(outer[0].value))
+            others = [n for n in g.live_nodes() if n is not outer[0].node and any(isinstance(x, ast.Attribute) and varkey(x) == attr_key and isinstance(x.ctx, ast.Load) for e in n.exprs() for x in ast.walk(e))]
+            if not others:
+                store_key = attr_key
+    bufroot, bufattr = store_key.rsplit(".", 1) if "." in store_key else (None, store_key)
     B0 = ("attr", ("p", bufroot), bufattr) if bufroot else ("p", buf)
-    rem = [n for n in g.live_nodes() if n.kind == "stmt" and isinstance(n.ast, ast.Assign) and any(varkey(t) == buf for t in n.ast.targets) and n not in inside]
+    rem = [n for n in g.live_nodes() if n.kind == "stmt" and isinstance(n.ast, ast.Assign) and any(varkey(t) == store_key for t in n.ast.targets) and n not in inside]
     # the in-place cut: del <buf>[:size]
     dels = [n for n in g.live_nodes() if n.kind == "stmt" and isinstance(n.ast, ast.Delete) and n not in inside
             and any(isinstance(t, ast.Subscript) and varkey(t.value) == buf for t in n.ast.targets)]
@@ -168,7 +178,7 @@ def buffered_reader(ctx, R, roles, T, rule="BUF"):
         R.check(g.dominates([head], rem[0]), rule, q + "|cut-after-refill", "the buffer is cut after the refill loop", "the buffer is cut before the refill loop has completed", f.loc(rem[0].ast))
         # nothing else touches the buffer between the loop and the cut
         defs = df.reaching(rem[0], buf)
-        clean = all(x.node in inside or x.node is g.entry or x.kind in ("entry", "callmut") for x in defs)
+        clean = all(x.node in inside or x.node is g.entry or x.kind in ("entry", "callmut") or (store_key != buf and x.node is outer[0].node) for x in defs)
         R.check(clean, rule, q + "|clean", "the buffer is not modified between the refill loop and the cut", "the receive buffer is modified between the refill loop and the cut", f.loc(rem[0].ast))
     for rn in rets:
         v = rn.ast.value
